@@ -17,7 +17,7 @@ WT=$(mktemp -d /tmp/sv-XXXXXX)
 git -C /repo worktree add -q --detach "$WT" HEAD
 DEMODIR=$WT; case "$DEMO" in */mocks/*) DEMODIR=$WT/mocks;; esac
 cp "$DEMO" "$DEMODIR/"
-DNAME=$(grep -o 'func Test[A-Za-z0-9_]*' "$DEMO" | head -1 | sed 's/func //')
+DNAME="($(grep -o 'func Test[A-Za-z0-9_]*' "$DEMO" | sed 's/func //' | paste -sd'|'))"
 res() { echo "$1" | tee -a "$OUT/run.log"; }
 : > "$OUT/run.log"
 ( cd "$DEMODIR" && timeout 300 go test -vet=off -count=1 -run "^$DNAME\$" . >"$OUT/demo_without.log" 2>&1 ); DW=$?
